@@ -27,7 +27,12 @@ Clauses (ids):
   C09.<tool>.zero_frame  an utterance too short for a frame is present under its id with zero rows
   C09.torch.dtype        stored tensor is float32
   C09.<tool>.syntax      inline JSON / JSON file / YAML file give bit-identical output
-  C09.<tool>.seed        two runs with the same --seed give bit-identical output
+  C09.<tool>.seed        two runs with the same --seed give bit-identical output (incl. the boundary value --seed=0
+                         with dither; the global generators are set differently before each run)
+
+Input classes added for the statement's "for all configurations / sets of utterances": STFT frame lengths and shifts
+that are odd in samples, in causal / centred / Kaldi-shift framing; --seed=0; manifest cases whose ids contain one
+another (prefix, suffix, extension of the listed id) and manifest lines that merely contain a map id.
 
 Not enumerated (outside the property): torch tool x Standardize x zero-frame utterance -- pipeline
 undefined: Standardize.apply rejects empty input.  For the Kaldi tool a zero-frame utterance is only
@@ -86,6 +91,60 @@ COMPUTERS = {
         "kind": "stft",
         "bank": {"kind": "gabor", "scale": "mel", "num_filts": 4, "sampling_rate": RATE},
         "kw": {"frame_shift_ms": 10, "frame_style": "causal", "use_log": False},
+    },
+    # odd frame lengths / odd frame shifts at 8 kHz (25.125 ms = 201, 34.375 ms = 275, 20.125 ms = 161 samples;
+    # 9.625 ms = 77, 10.125 ms = 81 samples; all exact in binary floating point), in each of the three framing
+    # modes: every // 2 and (. + 1) // 2 of the frame arithmetic takes its other branch here
+    "stft_odd_centered": {
+        "kind": "stft",
+        "bank": {"kind": "fbank", "num_filts": 5, "sampling_rate": RATE},
+        "kw": {"frame_length_ms": 25.125, "frame_shift_ms": 10, "frame_style": "centered", "kaldi_shift": False},
+    },
+    "stft_odd_centered_oddshift": {
+        "kind": "stft",
+        "bank": {"kind": "fbank", "num_filts": 4, "low_hz": 60.0, "sampling_rate": RATE},
+        "kw": {
+            "frame_length_ms": 34.375,
+            "frame_shift_ms": 9.625,
+            "frame_style": "centered",
+            "kaldi_shift": False,
+            "include_energy": True,
+            "window_function": "hanning",
+            "pad_to_nearest_power_of_two": False,
+        },
+    },
+    "stft_odd_causal": {
+        "kind": "stft",
+        "bank": {"kind": "fbank", "num_filts": 5, "sampling_rate": RATE},
+        "kw": {"frame_length_ms": 34.375, "frame_shift_ms": 9.625, "frame_style": "causal", "use_power": True},
+    },
+    "stft_odd_kaldi": {
+        "kind": "stft",
+        "bank": {"kind": "fbank", "num_filts": 5, "high_hz": 3900.0, "sampling_rate": RATE},
+        "kw": {
+            "frame_length_ms": 25.125,
+            "frame_shift_ms": 10.125,
+            "frame_style": "centered",
+            "kaldi_shift": True,
+            "include_energy": True,
+        },
+    },
+    "stft_odd_kaldi_evenshift": {
+        "kind": "stft",
+        "bank": {"kind": "fbank", "num_filts": 4, "sampling_rate": RATE},
+        "kw": {
+            "frame_length_ms": 20.125,
+            "frame_shift_ms": 10,
+            "frame_style": "centered",
+            "kaldi_shift": True,
+            "window_function": "hamming",
+            "pad_to_nearest_power_of_two": False,
+        },
+    },
+    "stft_even_oddshift": {
+        "kind": "stft",
+        "bank": {"kind": "fbank", "num_filts": 5, "sampling_rate": RATE},
+        "kw": {"frame_length_ms": 25, "frame_shift_ms": 9.625, "frame_style": "centered", "kaldi_shift": False},
     },
     "si_gabor": {
         "kind": "si",
@@ -460,7 +519,9 @@ def _run_tool(case, d, table, syntax, tag, perturb):
         with open(man, "w") as f:
             for i in case["manifest_skip"]:
                 f.write(case["utts"][i]["id"] + "\n")
-            f.write("not-in-the-map\n")
+            # lines that are no utterance of the map exclude nothing (also when a map id is a substring of one)
+            for line in case.get("manifest_extra", ["not-in-the-map"]):
+                f.write(line + "\n")
         opts.append("--manifest=" + man)
     try:
         with _quiet():
@@ -633,7 +694,7 @@ def _utt_set(rng, tool, variant):
     return utts
 
 
-def _make_case(rng, tool, computer, pre, post, syntax, variant, repeat=False, style="dicts"):
+def _make_case(rng, tool, computer, pre, post, syntax, variant, repeat=False, style="dicts", seed=None):
     utts = _utt_set(rng, tool, variant)
     case = {
         "tool": tool,
@@ -649,6 +710,8 @@ def _make_case(rng, tool, computer, pre, post, syntax, variant, repeat=False, st
         "data_seed": int(rng.integers(0, 2**31)),
         "repeat": bool(repeat),
     }
+    if seed is not None:
+        case["seed"] = int(seed)  # boundary value handed in by the plan (--seed=0 is a fixed seed like any other)
     if tool == "kaldi":
         if variant == "channel":
             case["channel"] = 1
@@ -661,7 +724,20 @@ def _make_case(rng, tool, computer, pre, post, syntax, variant, repeat=False, st
         if variant == "channel":
             case["channel"] = int(rng.integers(0, 2))
         elif variant == "manifest":
-            case["manifest_skip"] = [int(rng.integers(0, len(utts) - 1))]
+            # "excluded by the manifest" = the id is a LINE of the manifest. The ids are made to contain one another
+            # (not fixed-width): the listed id has a proper prefix, a proper suffix and an extension of itself among
+            # the not-listed ids, and the manifest also has lines that are no utterance of the map but contain one
+            k = int(rng.integers(0, len(utts) - 1))
+            case["manifest_skip"] = [k]
+            stem = utts[k]["id"]
+            listed = stem + "0"
+            others = [stem, listed + "0", listed[1:]] + [f"{listed}-{j}" for j in range(len(utts))]
+            order = [int(j) for j in rng.permutation(3)]
+            others = [others[j] for j in order] + others[3:]
+            for j, u in enumerate(x for x in utts if x is not utts[k]):
+                u["id"] = others[j]
+            utts[k]["id"] = listed
+            case["manifest_extra"] = ["not-in-the-map", "x" + stem + "y", listed + listed]
         elif variant == "affix":
             case["prefix"], case["suffix"] = "f_", ".feat.pt"
         if computer is None or _has(POSTS[post], "standardize"):
@@ -721,11 +797,49 @@ def _plan(tier, seed):
     ]
     # shift > frame length, utterance with enough samples for half a frame but no frame: early, for every seed
     torch_core.insert(2, ("stft_causal_gabor", "none", "stack", "gap"))
+    # odd frame lengths / odd shifts in the three framing modes (the torch tool runs its own port of the STFT
+    # framing, so this is where parity slips of the padding arithmetic show), early, for every seed
+    torch_core[1:1] = [
+        ("stft_odd_centered", "none", "none", "plain"),
+        ("stft_odd_kaldi", "preemph", "deltas", "plain"),
+        ("stft_odd_causal", "dither", "stack", "plain"),
+    ]
+    torch_core += [
+        ("stft_odd_centered_oddshift", "preemph_dither", "none", "channel"),
+        ("stft_odd_kaldi_evenshift", "none", "stack_deltas", "manifest"),
+        ("stft_even_oddshift", "dither", "deltas", "plain"),
+    ]
+    kaldi_core += [
+        ("stft_odd_centered", "preemph", "none", "plain"),
+        ("stft_odd_kaldi", "dither", "deltas", "channel"),
+        ("stft_odd_causal", "none", "stack", "mindur"),
+        ("stft_odd_centered_oddshift", "dither_preemph", "none", "plain"),
+    ]
+    # boundary value --seed=0 (a fixed seed like any other) with a random pre-processor: value (the oracle's
+    # dither stream is seeded with 0), same-seed-twice and syntax clauses, both tools, early, for every seed
+    SEED0 = {"seed": 0, "repeat": True}
+    kaldi_core[1:1] = [("stft_fbank", "dither", "none", "plain", SEED0)]
+    torch_core[1:1] = [("stft_fbank", "dither", "none", "plain", SEED0)]
+    kaldi_core += [("si_gabor", "preemph_dither", "deltas", "mixed", SEED0)]
+    torch_core += [(None, "dither_dither", "none", "manifest", SEED0)]
     for tool, core in (("kaldi", kaldi_core), ("torch", torch_core)):
-        for j, (comp, pre, post, variant) in enumerate(core):
+        for j, entry in enumerate(core):
+            comp, pre, post, variant = entry[:4]
+            opts = entry[4] if len(entry) > 4 else {}
             for s in syntaxes:
                 cases.append(
-                    _make_case(rng, tool, comp, pre, post, s, variant, repeat=(s == "inline"), style=("compact" if j % 2 else "dicts"))
+                    _make_case(
+                        rng,
+                        tool,
+                        comp,
+                        pre,
+                        post,
+                        s,
+                        variant,
+                        repeat=(s == "inline" or bool(opts.get("repeat"))),
+                        style=("compact" if j % 2 else "dicts"),
+                        seed=opts.get("seed"),
+                    )
                 )
     # interleave the two tools so that a time-out never starves one of them
     k = [c for c in cases if c["tool"] == "kaldi"]
@@ -753,6 +867,7 @@ def _plan(tier, seed):
                                 variant,
                                 repeat=bool(rng.integers(0, 2)),
                                 style=str(rng.choice(["dicts", "compact"])),
+                                seed=(0 if int(rng.integers(0, 8)) == 0 else None),
                             )
                         )
         order = rng.permutation(len(extra))
@@ -766,6 +881,13 @@ def run(tier: str, seed: int) -> dict:
     cases = _plan(tier, seed)
     slack = {"kaldi": 0.0, "torch": 0.0, "torch_entry": 0.0}
     n_zero = n_skip = n_done = 0
+    geometry = {}  # computer name -> (frame length, frame shift) in samples, measured on the oracle's computer
+    for name, comp in COMPUTERS.items():
+        if comp["kind"] == "stft":
+            c = _mk_computer(comp)
+            geometry[name] = (int(c.frame_length), int(c.frame_shift))
+    n_odd = {"kaldi": 0, "torch": 0}
+    n_seed0 = {"kaldi": 0, "torch": 0}
     for case in cases:
         if col.out_of_time() or col.too_many_failures():
             col.note(f"stopped after {n_done}/{len(cases)} planned cases (time or failure limit)")
@@ -790,6 +912,10 @@ def run(tier: str, seed: int) -> dict:
             slack["torch_entry"] = max(slack["torch_entry"], info["slack_entry"])
         n_zero += info["zero"]
         n_skip += info["skipped"]
+        if info["compared"] and geometry.get(case["computer"], (0, 0))[0] % 2:
+            n_odd[case["tool"]] += 1
+        if info["compared"] and case["seed"] == 0 and _has(PRES[case["pre"]], "dither"):
+            n_seed0[case["tool"]] += 1
         for clause, msg in fails:
             col.fail(clause, case, msg)
     col.note(
@@ -797,6 +923,10 @@ def run(tier: str, seed: int) -> dict:
         f"(column-scale) {slack['torch']:.3g}; for information, torch measured entry-wise: {slack['torch_entry']:.3g} "
         f"(the tool's torch STFT keeps float32 filters/window, so cancelling post-processors lose entry-wise accuracy); "
         f"zero-frame utterances checked: {n_zero}; excluded utterances checked absent: {n_skip}"
+    )
+    col.note(
+        f"STFT geometries (frame length, shift in samples): {geometry}; compared cases with an odd frame length: "
+        f"{n_odd}; compared cases with --seed=0 and dither: {n_seed0}"
     )
     col.note(
         "not enumerated: torch tool x Standardize x zero-frame utterance (pipeline undefined: Standardize.apply "
@@ -808,13 +938,16 @@ def run(tier: str, seed: int) -> dict:
         "repeat with the same --seed); non-trivial iff >= 1 stored utterance with >= 1 frame was compared with the "
         "written-out pipeline",
         bound=(
-            "computers {STFT fbank, STFT Kaldi-style with energy, STFT causal Gabor, SI Gabor, SI gammatone, none (torch)} x "
+            "computers {STFT fbank, STFT Kaldi-style with energy, STFT causal Gabor, STFT with odd frame length (201, 275, "
+            "161 samples) and/or odd shift (77, 81 samples) in causal / centred / Kaldi-shift framing (6), SI Gabor, SI "
+            "gammatone, none (torch)} x "
             "pre lists {none, preemph, dither, preemph+dither, dither+preemph, dither+dither} x post lists {none, deltas, "
             "stack, standardize, deltas+stack+standardize, stack+deltas, standardize+deltas} x {inline JSON, JSON file, "
             "YAML file} x utterance sets of 3-5 utterances <= 0.3 s at 8 kHz (incl. too short for a frame, rate "
-            "mismatch, channel >= channels, below --min-duration, frame shift > frame length with an utterance in the gap, 2-3 channel signals with --channel, manifest-listed, "
+            "mismatch, channel >= channels, below --min-duration, frame shift > frame length with an utterance in the gap, 2-3 channel signals with --channel, manifest-listed "
+            "with ids that are prefixes / suffixes / extensions of the listed id and manifest lines that contain a map id, "
             "file prefix/suffix); containers wav/npy(f64,f32,i16)/pt; "
-            + ("quick: 21 hand-picked combinations x 3 syntaxes" if tier == "quick" else "thorough: quick plan + full cross product once with random syntax/options")
+            + ("quick: 35 hand-picked combinations (4 of them with --seed=0 and dither) x 3 syntaxes" if tier == "quick" else "thorough: quick plan + full cross product once with random syntax/options")
             + "; excluded: torch tool x Standardize x zero-frame utterance (pipeline undefined: Standardize.apply rejects empty input)"
         ),
         assumptions=ASSUMPTIONS,
